@@ -946,7 +946,12 @@ func (vc *VC) functionalApp(fn *ssa.Function, args []string) string {
 		sorts = append(sorts, S.SortOf(p.Type()))
 	}
 	vc.declFun(name, "("+strings.Join(sorts, " ")+") "+S.SortOf(fn.Signature.Results().At(0).Type()))
-	vc.note("FUNCTIONAL (assumed): %s returns a function of its arguments only (the data it reads is not modified between calls)", FuncKey(fn))
+	if c := vc.P.Contract(fn); c != nil && !c.Trusted && len(c.Assigns) == 1 && c.Assigns[0] == "nothing" {
+		// the "writes nothing" half is an obligation of the callee (frame:assigns, write summary); what stays assumed is that the data it reads is stable
+		vc.note("FUNCTIONAL (assumed in part): %s returns a function of its arguments only - that it writes nothing is checked (its frame:assigns obligation), that the data it reads is not modified between calls is assumed", FuncKey(fn))
+	} else {
+		vc.note("FUNCTIONAL (assumed): %s returns a function of its arguments only (the data it reads is not modified between calls)", FuncKey(fn))
+	}
 	return sApp(name, args...)
 }
 
